@@ -248,7 +248,15 @@ def side_case(seed, tr):
             desc['flat2d'] = flat2d
             h = rng.uniform(0.05, 0.3)
             nsteps = rng.randint(1, 2)
-            sol = call_scheme(scheme, hom, S, L, I, M, x0, h, nsteps, threshold=1e-14, max_rank=50, normalize=0, flat2d=flat2d)
+            sc = 1.0
+            thr_step = 1e-14
+            if rng.random() < 0.25:
+                # a state of tiny norm with the default relative threshold: cuts are relative to the largest singular value
+                sc, thr_step = 1e-10, 1e-12
+                x0 = sc * x0
+                xv = dense(x0.cores).reshape(N)
+            desc['state_scale'] = sc
+            sol = call_scheme(scheme, hom, S, L, I, M, x0, h, nsteps, threshold=thr_step, max_rank=50, normalize=0, flat2d=flat2d)
             P = dense_step(scheme, tr, dims, gens, h)
             ref = xv.astype(complex)
             if len(sol) != nsteps + 1 or sol[0] is not x0:
@@ -256,7 +264,7 @@ def side_case(seed, tr):
             for k in range(1, nsteps + 1):
                 ref = P @ ref
                 v = dense(sol[k].cores).reshape(N)
-                if not consistent(sol[k]) or not close(v, ref, 1e-8):
+                if not consistent(sol[k]) or not close(v / sc, ref / sc, 1e-8):
                     return 'state %d differs from the dense product of local exponentials: max err %.2e' % (k, float(np.max(np.abs(v - ref)))), desc
             return None, desc
         # order of convergence towards expm of the assembled operator
